@@ -39,6 +39,20 @@ def levels(tier):
     ]
 
 
+def check_maps(E, fil):
+    """the memory-mapped reader returns the same blocks as the file"""
+    for which, st in (("trie", fil.lru_trie_storage), ("links", fil.links_store_storage)):
+        raw = E.raw_store(fil, which)
+        ok, mp = E.call("map", st.map, _allowed=())
+        bs = st.block_size
+        for b in range(0, len(raw), bs):
+            ok, blk = E.call("map.read", mp.read, b, _allowed=())
+            E.check(blk is not None and E.eq(E.wrap(blk), raw[b:b + bs]), "mmap:block", "memory-mapped read of %s block %d differs" % (which, b))
+        ok, past = E.call("map.read", mp.read, len(raw), _allowed=())
+        E.check(past is None, "mmap:block", "memory-mapped read past the end returns data")
+        # the mapping is deliberately not released: the next request must not be served from it
+
+
 def harness(E):
     P = E.params
     overwrite = P["overwrite"][E.choose("overwrite", len(P["overwrite"]))]
@@ -70,6 +84,7 @@ def harness(E):
     h = History(E, tw, ref, pool, P["alphabet"], P)
     for i in range(P["n"]):
         h.step(i)
+        check_maps(E, fil)
     read_battery(E, tw, pool)
     # identical store contents
     mt, ml = E.raw_store(mem, "trie"), E.raw_store(mem, "links")
